@@ -187,8 +187,12 @@ def check(run, model, tier):
         if r is None:
             raise AnalysisError('delivery thread %s not found' % nm)
         qp = r.params[2] if len(r.params) > 2 else None
-        gets = [c for c in shallow_calls(r.node) if isinstance(c.func, ast.Attribute) and isinstance(c.func.value, ast.Name) and c.func.value.id == qp]
-        meths = sorted({c.func.attr for c in gets})
-        ok = 'get' in meths and set(meths) <= {'get', 'task_done', 'get_nowait'}
-        run.inst('CMP.queue-kind', r, 'drained by get() only', ok, '' if ok else 'the delivery thread reads its queue through %s' % meths, obligation=True)
+        # every use of the queue in the thread (also through local aliases): get()/task_done() only - PriorityQueue.queue is a heap, not a sorted list
+        aliases = {qp} | {k_ for k_, v_ in local_defs(r.node).items() if any(isinstance(x_, ast.Name) and x_.id == qp for x_ in v_ if not isinstance(x_, tuple))}
+        uses = sorted({n_.attr for n_ in walk_shallow(r.node) if isinstance(n_, ast.Attribute) and isinstance(n_.value, ast.Name) and n_.value.id in aliases})
+        passed = [norm(c_) for c_ in shallow_calls(r.node) if any(isinstance(a_, ast.Name) and a_.id in aliases for a_ in list(c_.args) + [k_.value for k_ in c_.keywords])]
+        ok = 'get' in uses and set(uses) <= {'get', 'task_done', 'get_nowait'} and not passed
+        run.inst('CMP.queue-kind', r, 'drained by get() only', ok,
+                 '' if ok else ('the delivery thread touches its priority queue through %s%s: only get() hands out items in (priority, publish order); the underlying list is a binary heap, '
+                                'so reading it directly delivers a backlog out of order' % (uses, (' and passes it to ' + ', '.join(passed)) if passed else '')), obligation=True)
     run.assume('queue.PriorityQueue.get returns the smallest item by `<` (heapq); itertools.count.__next__ is atomic under the GIL')
